@@ -56,6 +56,20 @@ func Oracle(sc pairsim.Scenario, tr pairsim.Trace) *evid.Failure {
 			return evid.Failf("state/server-at-its-timeout/bw-sending", sc, "responder connection (role %q, block-wise timeout %d ms, housekeeping every %d ms): %d ms after the wire went quiet it still holds %d block-wise send buffers; results: %s", sc.Srv.Role, max(sc.Srv.BwTimeoutMs, 0), sc.TickMs, sc.MidMs, n, results(sc, tr))
 		}
 	}
+	// Cached replies disappear one exchange lifetime after they were stored - each of them, not the lot
+	// when the newest has run out: with a pause of 200 s between two batches of requests, one minute
+	// after the second batch only the replies of the second batch may be left.
+	if tr.MidRead && sc.MidMs == 60000 {
+		second := -1
+		for i, op := range sc.Ops {
+			if op.Kind == "sleep" && op.Ms >= 200000 {
+				second = len(sc.Ops) - i - 1
+			}
+		}
+		if second >= 0 && tr.MidSrv.ResponseCache > second {
+			return evid.Failf("state/server-after-one-lifetime/response-cache", sc, "%d requests, 200 s pause, %d requests, then 60 s: the responder still caches %d replies - those of the first batch are %d s old (exchange lifetime 247 s); results: %s", len(sc.Ops)-second-1, second, tr.MidSrv.ResponseCache, 260, results(sc, tr))
+		}
+	}
 	if !tr.SizesRead {
 		return nil // a connection was closed by the scenario or by an error: nothing to read
 	}
@@ -137,6 +151,21 @@ func gen(t *rapid.T) pairsim.Scenario {
 		if rapid.IntRange(0, 2).Draw(t, "faultfree") == 0 {
 			sc.Link.FaultsAB, sc.Link.FaultsBA = nil, nil // (the read-outs before the final one need a link without late copies)
 		}
+	}
+	if sc.Transport == "udp" && rapid.IntRange(0, 5).Draw(t, "lifetime") == 0 {
+		// two batches of plain requests, more than most of an exchange lifetime apart
+		sc.Link.FaultsAB, sc.Link.FaultsBA = nil, nil
+		sc.TickMs = rapid.SampledFrom([]int{500, 4000}).Draw(t, "ltick")
+		for b := 0; b < 2; b++ {
+			for k := rapid.IntRange(1, 3).Draw(t, "batch"); k > 0; k-- {
+				sc.Ops = append(sc.Ops, pairsim.Op{Kind: rapid.SampledFrom([]string{"get", "post"}).Draw(t, "lkind"), Up: 3, Down: 5, DeadlineMs: 2000})
+			}
+			if b == 0 {
+				sc.Ops = append(sc.Ops, pairsim.Op{Kind: "sleep", Ms: 200000})
+			}
+		}
+		sc.MidMs = 60000
+		return sc
 	}
 	n := rapid.IntRange(1, 12).Draw(t, "nops")
 	var observes []int
